@@ -48,4 +48,30 @@ pub mod deb822_lossless {
             ensures final(self)@ == list_remove(old(self)@, key@)
         { unimplemented!() }
     }
+
+    /// stand-ins for the crate's error types (never inspected)
+    pub struct ParseError;
+    pub enum Error { ParseError(ParseError), IoError(VxOpaqueErr) }
+
+    /// a lossless document as the list of its paragraphs (each a field list), in file order
+    #[verifier::external_body]
+    pub struct Deb822 { _p: () }
+
+    impl Deb822 {
+        pub uninterp spec fn view(&self) -> Seq<Seq<(Seq<char>, Seq<char>)>>;
+
+        #[verifier::external_body]
+        pub fn paragraphs(&self) -> (r: VxIter<Paragraph>)
+            ensures r@.len() == self@.len(), forall|i: int| 0 <= i < r@.len() ==> (#[trigger] r@[i])@ == self@[i]
+        { unimplemented!() }
+
+        /// strict reader: a function of the text (see C01/C03 for what it returns)
+        #[verifier::external_body]
+        pub fn from_str(s: &str) -> (r: Result<Deb822, ParseError>)
+        { unimplemented!() }
+
+        #[verifier::external_body]
+        pub fn from_str_relaxed(s: &str) -> (r: (Deb822, Vec<String>))
+        { unimplemented!() }
+    }
 }
